@@ -37,6 +37,8 @@ pub struct Monitors {
     pub cfg: SoloCfg,
     /// when the scripted peer last acknowledged (cumulatively or selectively) something new
     pub last_news_t: Option<u64>,
+    /// the peer acknowledged a sequence number that was never sent (no liveness claims after that)
+    pub hostile_ack_seen: bool,
     pub all_findings: Vec<Finding>,
     // ---- sender side (the endpoint's data on the wire) ----
     pub tx: BTreeMap<u16, TxSeg>,
@@ -104,6 +106,7 @@ impl Monitors {
     pub fn new(cfg: &SoloCfg) -> Self {
         Monitors {
             last_news_t: None,
+            hostile_ack_seen: false,
             cfg: cfg.clone(),
             all_findings: vec![],
             tx: BTreeMap::new(),
@@ -170,6 +173,7 @@ impl Monitors {
         if let Some(t) = self.fin_times.last() {
             out.push(now.saturating_sub(*t));
         }
+        out.push(self.hostile_ack_seen as u64);
         out.push(self.last_news_t.map(|t| now.saturating_sub(t).min(self.cfg.inactivity_ms * 1_000)).unwrap_or(u64::MAX));
         out.push(self.peer_last_wnd as u64);
         out.push(self.largest_payload_seen as u64);
@@ -276,7 +280,7 @@ impl Monitors {
         // C02: a sender does not give up on a peer that keeps reporting newly received data (cumulatively or
         // selectively): death by inactivity needs a full inactivity timeout without such news
         if let (Some(Err(e)), Some(ob)) = (&rec.d_result, &rec.obs_before) {
-            if e.contains("inactive for too long") && ob.state == "established" {
+            if e.contains("inactive for too long") && ob.state == "established" && !self.hostile_ack_seen {
                 if let Some(t) = self.last_news_t {
                     let idle = rec.t_us.saturating_sub(t);
                     if idle + 1_000 < self.cfg.inactivity_ms * 1_000 {
@@ -347,6 +351,7 @@ impl Monitors {
                 None => continue,
             };
             if sdist(hi, h.ack) < 0 {
+                self.hostile_ack_seen = true;
                 continue; // acknowledges data never sent: hostile, proves nothing
             }
             let mut newly = 0u64;
@@ -1262,6 +1267,30 @@ impl Monitors {
             }
         }
         // R3: the peer's in-sequence FIN is acknowledged at once and answered by our own FIN
+        // two datagrams in one poll: a FIN that is next in sequence when the step starts must be acknowledged
+        // whatever is queued behind (or in front of) it, unless the other packet is a RESET
+        if matches!(act, Some(Act::Deliver2(..))) && !rec.peer_sent.iter().any(|(h, _, _)| h.ptype == 3) {
+            if let Some(ob) = &rec.obs_before {
+                let receiving = state_before == "established" || state_before == "fin-wait-1" || state_before == "fin-wait-2";
+                let bug_death = matches!(&rec.d_result, Some(Err(e)) if e.to_lowercase().starts_with("bug"));
+                let judged = w.done.is_none() || matches!(rec.d_result, Some(Ok(()))) || bug_death;
+                if let Some((h, _, _)) = rec.peer_sent.iter().find(|(h, _, _)| h.ptype == 1 && h.seq == ob.last_consumed_remote_seq_nr.wrapping_add(1)) {
+                    let acked = rec.emitted.iter().any(|e| e.hdr.ack == h.seq);
+                    // by design: in fin-wait-1 an ST_STATE that acknowledges our FIN and carries the peer's next
+                    // sequence number is itself taken as the peer's FIN (some clients close that way)
+                    let state_taken_as_fin = state_before == "fin-wait-1"
+                        && rec.peer_sent.first().map(|(f, _, _)| f.ptype == 2 && f.seq == ob.last_consumed_remote_seq_nr.wrapping_add(1) && Some(f.ack) == self.fin_seq).unwrap_or(false);
+                    if receiving && judged && !acked && rec.rejected.is_empty() && !self.hostile_ack_seen && !state_taken_as_fin {
+                        v.push(f(
+                            "C17",
+                            "teardown",
+                            "fin/peer-fin-not-acknowledged",
+                            format!("the peer's in-sequence ST_FIN (seq {}) arrived together with another datagram in state {} and was not acknowledged (connection result {:?})", h.seq, state_before, rec.d_result),
+                        ));
+                    }
+                }
+            }
+        }
         for (h, _, _) in &rec.peer_sent {
             if h.ptype == 1 && !matches!(act, Some(Act::Deliver2(..))) {
                 // in sequence for the harness AND for the endpoint (a peer that ignores the window may have had
